@@ -9,6 +9,7 @@ use super::env::verif_harness;
 use super::env::Env;
 use super::monitor;
 use super::shadow;
+use super::shadow::unroll;
 use super::env::all_fixed;
 use super::env::at_lb;
 use super::env::protocol;
@@ -43,25 +44,25 @@ impl Terms {
 
     pub(crate) fn sum(&self, at: fn(usize) -> i64) -> i64 {
         let mut sum: i64 = 0;
-        let mut i = 1;
-        while i <= self.n {
-            sum += self.scale[i] as i64 * at(i) + self.offset[i] as i64;
-            i += 1;
-        }
+        unroll!(i in [1, 2, 3, 4] {
+            if i <= self.n {
+                sum += self.scale[i] as i64 * at(i) + self.offset[i] as i64;
+            }
+        });
         sum
     }
 
     /// Precondition on views: the image of the inner domain fits in an `i32` (a view is an
     /// `i32`-valued variable, so a view whose values do not fit is not a variable at all).
     pub(crate) fn assume_images_fit(&self) {
-        let mut i = 1;
-        while i <= self.n {
-            let a = self.scale[i] as i64 * shadow::lb(i) as i64 + self.offset[i] as i64;
-            let b = self.scale[i] as i64 * shadow::ub(i) as i64 + self.offset[i] as i64;
-            kani::assume(a >= i32::MIN as i64 && a <= i32::MAX as i64);
-            kani::assume(b >= i32::MIN as i64 && b <= i32::MAX as i64);
-            i += 1;
-        }
+        unroll!(i in [1, 2, 3, 4] {
+            if i <= self.n {
+                let a = self.scale[i] as i64 * shadow::lb(i) as i64 + self.offset[i] as i64;
+                let b = self.scale[i] as i64 * shadow::ub(i) as i64 + self.offset[i] as i64;
+                kani::assume(a >= i32::MIN as i64 && a <= i32::MAX as i64);
+                kani::assume(b >= i32::MIN as i64 && b <= i32::MAX as i64);
+            }
+        });
     }
 
     pub(crate) fn views(&self) -> Vec<AffineView<DomainId>> {
@@ -76,11 +77,11 @@ impl Terms {
 }
 
 fn domains(n: usize, holes: usize) {
-    let mut i = 1;
-    while i <= n {
-        shadow::init_any(i, holes);
-        i += 1;
-    }
+    unroll!(i in [1, 2, 3, 4] {
+        if i <= n {
+            shadow::init_any(i, holes);
+        }
+    });
 }
 
 // ---------------------------------------------------------------------------------------------
@@ -110,7 +111,7 @@ fn lin_leq<Var: IntegerVariable + 'static>(
 }
 
 verif_harness! {
-    #[kani::unwind(10)]
+    #[kani::unwind(4)]
     fn lin_leq_ids_2() {
         let terms = Terms::plain(2);
         domains(2, 0);
@@ -121,7 +122,7 @@ verif_harness! {
 }
 
 verif_harness! {
-    #[kani::unwind(10)]
+    #[kani::unwind(5)]
     fn lin_leq_ids_3_change() {
         let terms = Terms::plain(3);
         domains(3, 0);
@@ -133,7 +134,7 @@ verif_harness! {
 }
 
 verif_harness! {
-    #[kani::unwind(10)]
+    #[kani::unwind(4)]
     fn lin_leq_ids_2_holes_change() {
         let terms = Terms::plain(2);
         domains(2, 1);
@@ -154,7 +155,7 @@ fn view_terms(scales: [i32; 2]) -> Terms {
 }
 
 verif_harness! {
-    #[kani::unwind(10)]
+    #[kani::unwind(4)]
     fn lin_leq_views_pos_neg_change() {
         domains(2, 0);
         let terms = view_terms([1, -1]);
@@ -167,7 +168,7 @@ verif_harness! {
 }
 
 verif_harness! {
-    #[kani::unwind(10)]
+    #[kani::unwind(4)]
     fn lin_leq_views_2_m3() {
         domains(2, 1);
         let terms = view_terms([2, -3]);
@@ -210,7 +211,7 @@ fn lin_ne<Var: IntegerVariable + 'static>(
 }
 
 verif_harness! {
-    #[kani::unwind(10)]
+    #[kani::unwind(4)]
     fn lin_ne_ids_2() {
         let terms = Terms::plain(2);
         domains(2, 1);
@@ -222,7 +223,7 @@ verif_harness! {
 }
 
 verif_harness! {
-    #[kani::unwind(10)]
+    #[kani::unwind(5)]
     fn lin_ne_ids_3() {
         let terms = Terms::plain(3);
         domains(3, 0);
@@ -234,7 +235,7 @@ verif_harness! {
 }
 
 verif_harness! {
-    #[kani::unwind(10)]
+    #[kani::unwind(4)]
     fn lin_ne_views_pos_neg() {
         domains(2, 0);
         let terms = view_terms([1, -1]);
@@ -247,7 +248,7 @@ verif_harness! {
 }
 
 verif_harness! {
-    #[kani::unwind(10)]
+    #[kani::unwind(4)]
     fn lin_ne_ids_2_backtrack() {
         // change, propagate, backtrack over it (real `synchronise` + `notify_backtrack`), second
         // change, propagate: the stale-counter hazard of the incremental state.
@@ -261,7 +262,7 @@ verif_harness! {
 }
 
 verif_harness! {
-    #[kani::unwind(10)]
+    #[kani::unwind(4)]
     fn lin_leq_ids_2_backtrack() {
         let terms = Terms::plain(2);
         domains(2, 0);
